@@ -9,6 +9,7 @@ import (
 	"github.com/hashicorp/nodeenrollment"
 	"github.com/hashicorp/nodeenrollment/types"
 	"github.com/hashicorp/nodeenrollment/zzverif/vf"
+	"github.com/hashicorp/nodeenrollment/zzverif/vfs"
 )
 
 func init() { VfHarnesses["VerifC09Step"] = VerifC09Step }
@@ -17,7 +18,7 @@ func init() { VfHarnesses["VerifC09Step"] = VerifC09Step }
 // the start-over branch is unreachable, and every change is "old next becomes current".
 func VerifC09Step() {
 	ctx := context.Background()
-	st := &vfStorage{}
+	st := &vfs.Storage{}
 	t0 := vf.Now()
 	life := vf.Dur("lifetime", 1000000000, 400000000000000000)
 	nb := vf.Dur("nbskew", -1000000000000000, 0)
